@@ -211,9 +211,12 @@ pub fn cb_dist(ids: &[u32], table: &[u32], a: &[u32], b: &[u32]) -> f32 {
         let j = ids.iter().position(|x| *x == b[0]).unwrap_or(n);
         let idx = if i < j { pair_index(n, i, j) } else { pair_index(n, j, i) };
         let v = table.get(idx).copied().unwrap_or(0);
-        // entries from 2^25 on are the bit pattern of the distance (distances a few ulps apart)
+        // entries from 2^25 on are the bit pattern of the distance (distances a few ulps apart,
+        // negative distances); entries in (2^24, 2^25) are the bit pattern + 2^24 (subnormal distances)
         if v >= 1 << 25 {
             f32::from_bits(v)
+        } else if v > 1 << 24 {
+            f32::from_bits(v - (1 << 24))
         } else {
             v as f32
         }
